@@ -277,3 +277,30 @@ def read_until_close_drains(report, repo, rule):
                  'the read loop stops as soon as the stream is marked closed '
                  '(%s): data buffered before the CLSE is never delivered' %
                  norm(lp.test))
+
+
+def errors_do_not_reformat(report, repo, rule):
+  UE = 'openhtf/plugs/usb/usb_exceptions.py'
+  report.rule(rule, 'T-ARGS: the USB error classes do not %-format the message '
+              'they are given (the raise sites pass finished text that may '
+              'contain device bytes such as "%")')
+  n = 0
+  for fi in repo.module(UE).all_funcs():
+    if fi.node.name != '__init__':
+      continue
+    n += 1
+    params = set(lib.param_names(fi.node)[1:])
+    bad = [x for x in ast.walk(fi.node) if (
+        isinstance(x, ast.BinOp) and isinstance(x.op, ast.Mod) and isinstance(
+            x.left, ast.Name) and x.left.id in params) or (
+                isinstance(x, ast.AugAssign) and isinstance(x.op, ast.Mod) and
+                isinstance(x.target, ast.Name) and x.target.id in params) or (
+                    isinstance(x, ast.Call) and last_attr(x) == 'format' and
+                    isinstance(x.func.value, ast.Name) and
+                    x.func.value.id in params)]
+    report.check(not bad, rule, fi.qualname, 'no-reformat', fi.node,
+                 '%s passes its message on unformatted' % fi.qualname,
+                 '%s formats the message again (%s): device text containing '
+                 '"%%" turns a protocol error into a ValueError/TypeError' % (
+                     fi.qualname, norm(bad[0])[:50] if bad else ''))
+  report.info(rule, None, '%d error constructors inspected' % n)
